@@ -18,6 +18,11 @@ type Opts struct {
 	NoNeg    bool // no unary minus / plus on references, calls, groups
 	NoSubq   bool
 	Simple   bool // minimal payloads (exhaustive clause-subset mode)
+	// Odd makes the generator produce statements a later validation stage
+	// would reject but the parser accepts: calls with any argument count,
+	// time() dimensions with 0-3 arguments of any kind, zero and negative
+	// intervals, duration arithmetic with fractional and zero operands.
+	Odd bool
 	// SubqDepth is the maximum subquery nesting of SELECT sources (default 2).
 	SubqDepth int
 	// SubqProb is the probability that a source is a subquery (default 0.2).
@@ -233,6 +238,26 @@ func (g *G) litInt() *influxql.IntegerLiteral {
 }
 
 func (g *G) atom(ctx ECtx, depth int) influxql.Expr {
+	if g.Opt.Odd && g.Rg.P(0.15) {
+		// duration / number arithmetic with zero, fractional and huge operands
+		d := &influxql.DurationLiteral{Val: g.durs[g.Rg.Intn(len(g.durs))]}
+		var rhs influxql.Expr
+		switch g.Rg.Intn(5) {
+		case 0:
+			rhs = &influxql.NumberLiteral{Val: []float64{0.5, 0.25, 0.999, 0, 1e-7, 1e300, 2.5}[g.Rg.Intn(7)]}
+		case 1:
+			rhs = &influxql.IntegerLiteral{Val: []int64{0, 1, 2, 9223372036854775807}[g.Rg.Intn(4)]}
+		case 2:
+			rhs = &influxql.DurationLiteral{Val: g.durs[g.Rg.Intn(len(g.durs))]}
+		case 3:
+			rhs = &influxql.StringLiteral{Val: "2000-01-01T00:00:00Z"}
+		default:
+			rhs = &influxql.Call{Name: "now"}
+		}
+		op := []influxql.Token{influxql.DIV, influxql.MUL, influxql.ADD, influxql.SUB, influxql.MOD}[g.Rg.Intn(5)]
+		g.feat("odd.duration-arith")
+		return &influxql.ParenExpr{Expr: &influxql.BinaryExpr{Op: op, LHS: d, RHS: rhs}}
+	}
 	k := g.Rg.Intn(20)
 	if g.Opt.Simple {
 		k = g.Rg.Intn(4)
